@@ -601,6 +601,15 @@ def model_conformance(ctx, traces):
         if ops is None:
             ctx.count("e2e:attack:model:not-replayable")
             continue
+        # the Lean model's per-op cost grows with the history (association lists): replay each trace up to
+        # a bound that always includes the rewritten packet and the packets that follow it closely
+        hi_attack = max([hi for lo, hi, verdict, what in checks
+                         if what.startswith(f"{tr.attack.get('space', 'app')} packet {tr.attack['pn']} ")] + [0])
+        limit = max(2500, hi_attack + 300)
+        if len(ops) > limit:
+            ctx.count("e2e:attack:model:trace-truncated")
+            ops = ops[:limit]
+            checks = [c for c in checks if c[1] < limit]
         lines.append("reset")
         spans.append((tr, len(lines), ops, checks))
         lines += ops
